@@ -22,6 +22,8 @@ use verif_shim::session::Session;
 use verif_shim::std_shim::sync::mpsc::channel;
 
 const K: usize = 2;
+/// Preemption bound meaning "no bound": every schedule is explored.
+const UNBOUNDED: usize = 99;
 
 fn h35() -> SparseMatrix {
     // 3 x 5 staircase code (k = 2)
@@ -564,11 +566,14 @@ fn scenarios(thorough: bool) -> Vec<(Scenario, Vec<usize>)> {
         for &bch in &[0u64, 1] {
             for &iz in &[true, false] {
                 // one-round scenarios: deep
-                add(1, 1, bch, iz, 1, script, Inject::None, vec![4], 0);
-                add(1, 2, bch, iz, 1, script, Inject::None, vec![4], 0);
+                // one worker, one point: ALL schedules (no preemption bound)
+                add(1, 1, bch, iz, 1, script, Inject::None, vec![UNBOUNDED], 0);
+                add(1, 2, bch, iz, 1, script, Inject::None, vec![if !thorough && bch == 1 && iz { 4 } else { UNBOUNDED }], 0);
                 if script < 2 || thorough {
                     let b = if thorough && script < 2 { 4 } else if thorough || script == 0 { 3 } else { 2 };
-                    add(2, 1, bch, iz, 1, script, Inject::None, vec![b], 0);
+                    // thorough: two workers, one required error, script 0: ALL schedules
+                    let b1 = if thorough && script == 0 { UNBOUNDED } else { b };
+                    add(2, 1, bch, iz, 1, script, Inject::None, vec![b1], 0);
                     add(2, 2, bch, iz, 1, script, Inject::None, vec![b], 0);
                 } else {
                     add(2, 2, bch, iz, 1, script, Inject::None, vec![2], 0);
@@ -745,6 +750,8 @@ pub fn run(run: &Run) -> i32 {
         for (scn, bounds) in &list {
             let b = *bounds.last().unwrap();
             let nshards = match (scn.workers, b, scn.rounds) {
+                (2, UNBOUNDED, _) => 128,
+                (1, UNBOUNDED, _) => 4,
                 (4, b, _) if b >= 2 => 64,
                 (4, _, _) => 16,
                 (3, b, _) if b >= 3 => 64,
@@ -798,7 +805,7 @@ pub fn run(run: &Run) -> i32 {
             graph.2 += e.0;
             all_complete &= e.6;
             rows.push(json!({
-                "scenario": id, "preemption_bound": e.8, "bound_completed": e.6, "executions": e.0, "decision_points": e.1,
+                "scenario": id, "preemption_bound": if e.8 >= UNBOUNDED { json!("unbounded (all schedules)") } else { json!(e.8) }, "bound_completed": e.6, "executions": e.0, "decision_points": e.1,
                 "max_decisions_in_one_execution": e.2, "distinct_arrival_orders": e.3.len(), "distinct_outcomes": e.4.len(),
                 "deadlocks": e.5, "determinism_rechecks": e.7,
             }));
@@ -814,7 +821,7 @@ pub fn run(run: &Run) -> i32 {
         run,
         acc,
         Coverage {
-            rule: "stateless DFS over thread schedules of the real BerTest::run under a controlled scheduler (every channel send/recv/try_recv, spawn, join and thread exit is a scheduling point; one thread runs at a time), all schedules with at most b preemptions per scenario (b per scenario in per_scenario; includes every schedule with fewer preemptions); scenarios = worker counts 1..3 (4 at preemption bound 1-2) x required frame errors 0..2 x outer-code threshold off/1 x report interval 0/1h x 4 frame scripts x 1 or 2 Eb/N0 points, plus failure injection (stage returns Err; interleaver / 8PSK stage panics in every worker; decoder panics in worker 0). Scripted decoders yield at low priority after their frame budget (the number of frames after which any single worker has supplied the required errors), which bounds how far a worker runs ahead. Oracle per execution: termination (deadlock = no enabled thread), all threads joined at return, statistics == fold of the scripted frames in the arrival order read from the scheduler's own log up to exactly the stopping prefix (bit-exact ratios), every intermediate report == fold of its prefix, single final 'finished' report, Err (not hang / panic) for unprocessable configurations. states/transitions = decision points executed; traces_validated_against_impl = complete executions of the implementation. Non-trivial = execution with at least one real scheduling choice. Exploration is sharded over worker processes by subtrees of a deterministic breadth-first frontier.".into(),
+            rule: "stateless DFS over thread schedules of the real BerTest::run under a controlled scheduler (every channel send/recv/try_recv, spawn, join and thread exit is a scheduling point; one thread runs at a time), all schedules with at most b preemptions per scenario (b per scenario in per_scenario; includes every schedule with fewer preemptions; 'unbounded' = every schedule of the scenario, no bound: all one-worker one-point scenarios, and in the thorough tier the two-worker one-error scenarios of script 0); scenarios = worker counts 1..3 (4 at preemption bound 1-2) x required frame errors 0..2 x outer-code threshold off/1 x report interval 0/1h x 4 frame scripts x 1 or 2 Eb/N0 points, plus failure injection (stage returns Err; interleaver / 8PSK stage panics in every worker; decoder panics in worker 0). Scripted decoders yield at low priority after their frame budget (the number of frames after which any single worker has supplied the required errors), which bounds how far a worker runs ahead. Oracle per execution: termination (deadlock = no enabled thread), all threads joined at return, statistics == fold of the scripted frames in the arrival order read from the scheduler's own log up to exactly the stopping prefix (bit-exact ratios), every intermediate report == fold of its prefix, single final 'finished' report, Err (not hang / panic) for unprocessable configurations. states/transitions = decision points executed; traces_validated_against_impl = complete executions of the implementation. Non-trivial = execution with at least one real scheduling choice. Exploration is sharded over worker processes by subtrees of a deterministic breadth-first frontier.".into(),
             exhaustive: all_complete,
             extra,
             graph: Some(graph),
